@@ -1,4 +1,5 @@
 import Driver.Proto
+import Driver.ProtoSQ
 import TinyFlux.Model.DB
 /-! Line protocol → the executable model of the implementation (incl. the generated definitions). -/
 open TinyFlux TinyFlux.Spec TinyFlux.Proto TinyFlux.Model
@@ -69,6 +70,16 @@ def modelLine (s : State) (line : String) : State × String :=
       (s, s!"valid={if s.index.valid then 1 else 0} contents=" ++ showList showPoint s.storage)
     | .list [.atom "reopen"] => (reopen s, "ok unit")
     | .list (.atom "idx" :: rest) => (s, idxLine s rest)
+    | .list [.atom "eval", q, pt] =>
+      match parseQuery q, parsePoint pt with
+      | some q, some (some p) =>
+        (s, match eval q p with | .ok b => (if b then "ok true" else "ok false") | .error _ => "err")
+      | _, _ => (s, "bad-op")
+    | .list [.atom "qeq", a, b] =>
+      match parseSQ a, parseSQ b with
+      | some x, some y =>
+        (s, s!"eq={QHash.qeq x y} hashable={(QHash.hashOf x).isSome},{(QHash.hashOf y).isSome}")
+      | _, _ => (s, "bad-op")
     | .list (.atom "c18" :: _) =>
       match parseC18 sx with
       | some (fn, x, l) => (s, "gen=" ++ genFind fn l x)
